@@ -1608,6 +1608,148 @@ func runConc(r *common.Rand, delayUS int, rp map[string]string) {
 	run.Case(id, "C "+common.Hex(sc.JSON()), "CONC")
 }
 
+// runConcModel: a batch of single concurrent calls run to completion, compared with the MODEL:
+// the directory they leave (index.json entries, blobs) must be the final directory of some
+// schedule of Model/OciCrashConc.v (the model runner explores all interleavings).  The calls
+// are chosen so that what each does is decided by the state before the batch (as in the model's
+// call_prog): pushes of blobs not stored yet, tags of blobs already stored, untags of existing
+// references, SaveIndex.
+func runConcModel(r *common.Rand, rp map[string]string) {
+	sc := &ck.Script{Blobs: universe(r, false)}
+	if rp != nil {
+		var err error
+		sc, err = ck.ParseScript([]byte(rp["script"]))
+		if err != nil {
+			panic(err)
+		}
+	} else {
+		ids := []int{1, 2, 3, 4, 5, 6, 1001, 1002, 2001}
+		s := newSim()
+		for i := 0; i < r.Intn(5); i++ {
+			o := ck.Op{Kind: "push", Blob: common.Pick(r, ids)}
+			if s.blobs[o.Blob] {
+				continue
+			}
+			s.apply(o)
+			sc.History = append(sc.History, o)
+			if r.Bool() {
+				t := ck.Op{Kind: "tag", Blob: o.Blob, Ref: 1 + r.Intn(3)}
+				s.apply(t)
+				sc.History = append(sc.History, t)
+			}
+		}
+		n := 2 + r.Intn(2)
+		for g := 0; g < n; g++ {
+			var have, missing, refs []int
+			for _, id := range ids {
+				if s.blobs[id] {
+					have = append(have, id)
+				} else {
+					missing = append(missing, id)
+				}
+			}
+			for rf := range s.tags {
+				refs = append(refs, rf)
+			}
+			sort.Ints(refs)
+			var o ck.Op
+			switch k := r.Intn(6); {
+			case k <= 1 && len(missing) > 0:
+				o = ck.Op{Kind: "push", Blob: common.Pick(r, missing)}
+			case k <= 3 && len(have) > 0:
+				o = ck.Op{Kind: "tag", Blob: common.Pick(r, have), Ref: 1 + r.Intn(3)}
+			case k == 4 && len(refs) > 0:
+				o = ck.Op{Kind: "untag", Ref: common.Pick(r, refs)}
+			default:
+				o = ck.Op{Kind: "saveindex"}
+			}
+			sc.Conc = append(sc.Conc, []ck.Op{o})
+		}
+	}
+	dir, err := os.MkdirTemp(work, "concm")
+	if err != nil {
+		panic(err)
+	}
+	defer os.RemoveAll(dir)
+	root := filepath.Join(dir, "root")
+	os.Mkdir(root, 0o755)
+	scriptPath := filepath.Join(dir, "script.json")
+	os.WriteFile(scriptPath, []byte(sc.JSON()), 0o644)
+	cmd := exec.Command(exe, "conc", root, scriptPath)
+	var outb strings.Builder
+	cmd.Stdout = &outb
+	if err := cmd.Start(); err != nil {
+		panic(err)
+	}
+	waited := make(chan error, 1)
+	go func() { waited <- cmd.Wait() }()
+	id := run.NewID()
+	rep := map[string]any{"script": sc, "conc_model": 1}
+	var hs, cs, bl []string
+	for _, o := range sc.History {
+		hs = append(hs, o.String())
+	}
+	for _, ops := range sc.Conc {
+		cs = append(cs, ops[0].String())
+	}
+	for _, b := range sc.Blobs {
+		m := 0
+		if b.IsManifest() {
+			m = 1
+		}
+		if b.Undecodable() {
+			m = 2
+		}
+		bl = append(bl, fmt.Sprintf("%d:1:%d", b.ID, m))
+	}
+	text := "blobs=" + strings.Join(bl, ",") + ";hist=" + strings.Join(hs, ",") + ";conc=" + strings.Join(cs, "|") + ";final=saveindex"
+	select {
+	case <-waited:
+	case <-time.After(30 * time.Second):
+		cmd.Process.Kill()
+		<-waited
+		run.OracleFail(id, "conc-wedged", "the concurrent calls did not return within 30 s", rep)
+		run.Case(id, "Q "+text+" wedged", "QREACH yes")
+		return
+	}
+	if !strings.Contains(outb.String(), "SYNC ok") {
+		run.OracleFail(id, "conc-quiescent-unsynced", "all concurrent calls have returned and the child reports: "+strings.TrimSpace(outb.String()), rep)
+	}
+	// the observation in the model's vocabulary
+	byHex := map[string]int{}
+	for _, b := range sc.Blobs {
+		byHex[b.Hex()] = b.ID
+	}
+	obsIdx := "none"
+	if idx, status := ck.ReadRawIndex(root); status == "ok" {
+		var es []string
+		for _, m := range idx.Manifests {
+			e := strconv.Itoa(byHex[m.Digest[strings.IndexByte(m.Digest, ':')+1:]]) + "@"
+			if rf, ok := m.Annotations["org.opencontainers.image.ref.name"]; ok {
+				e += strings.TrimPrefix(rf, "t")
+			} else {
+				e += "-"
+			}
+			es = append(es, e)
+		}
+		sort.Strings(es)
+		obsIdx = "[" + strings.Join(es, ",") + "]"
+	}
+	names, _ := ck.BlobFiles(root)
+	on := map[int]bool{}
+	for _, n := range names {
+		on[byHex[n]] = true
+	}
+	var bs []string
+	for _, b := range sc.Blobs {
+		if on[b.ID] {
+			bs = append(bs, strconv.Itoa(b.ID))
+		}
+	}
+	run.Count("conc-model-compared")
+	run.Case(id, "Q "+text+" I="+obsIdx+";B="+strings.Join(bs, ","), "QREACH yes")
+}
+
 // ---------- main ----------
 
 func genHistory(r *common.Rand, sc *ck.Script, s *sim, n int) []ck.Op {
@@ -1687,6 +1829,12 @@ func replay(path string) {
 		if err != nil {
 			panic(err)
 		}
+		if len(sc.Conc) > 0 && c["conc_model"] != "" {
+			for rep := 0; rep < 20; rep++ {
+				runConcModel(run.Rand, c)
+			}
+			continue
+		}
 		if len(sc.Conc) > 0 {
 			// timing is not reproducible: the same calls, killed at a spread of moments
 			d, _ := strconv.Atoi(c["conc_delay_us"])
@@ -1760,6 +1908,9 @@ func main() {
 		if i%4 == 0 {
 			runConc(r, -1, nil) // run to completion: resolver and index.json agree
 		}
+		if i%2 == 0 {
+			runConcModel(r, nil) // run to completion and compared with the model's reachable finals
+		}
 	}
 	// AutoSaveIndex off: only SaveIndex writes index.json
 	for h := 0; h < run.Scale(1, 8); h++ {
@@ -1819,6 +1970,7 @@ func checkFloors() {
 	need("final:init", 1)
 	need("conc-kills", run.Scale(30, 300))
 	need("conc-quiescent", run.Scale(8, 80))
+	need("conc-model-compared", run.Scale(15, 150))
 	need("autosave-off-scripts", run.Scale(8, 60))
 	need("final:reopen", run.Scale(3, 20))
 	need("composite-finals-with-cascade", run.Scale(2, 30))
